@@ -936,4 +936,19 @@ example : Sign.builderTag toyPkt [0x88, 1, 22, 0x88, 1, 1] = .ok SigTag.RPMSIGTA
 
 end examples
 
+/-! ### the signature tags of the CODE are rpm's -/
+
+/-- the whole signature-header tag table scraped from src/constants.rs carries the numbers of rpm's `rpmtag.h`
+(RPMSIGTAG_DSA 267, RSA 268, OPENPGP 278, PGP 1002, GPG 1005; the size and digest tags): a signature looked up under
+another number is "absent" on every package rpm signed, and a signature stored under another number is one rpm ignores -/
+theorem signature_tags_standard :
+    Gen.sigTagTable = [("HEADER_SIGNATURES", 62), ("RPMSIGTAG_SIZE", 1000), ("RPMSIGTAG_PAYLOADSIZE", 1007), ("RPMSIGTAG_SHA1", 269),
+      ("RPMSIGTAG_MD5", 1004), ("RPMSIGTAG_DSA", 267), ("RPMSIGTAG_RSA", 268), ("RPMSIGTAG_LONGSIZE", 270),
+      ("RPMSIGTAG_LONGARCHIVESIZE", 271), ("RPMSIGTAG_FILESIGNATURES", 274), ("RPMSIGTAG_FILESIGNATURE_LENGTH", 275),
+      ("RPMSIGTAG_VERITYSIGNATURES", 276), ("RPMSIGTAG_VERITYSIGNATUREALGO", 277), ("RPMSIGTAG_OPENPGP", 278),
+      ("RPMSIGTAG_PGP", 1002), ("RPMSIGTAG_GPG", 1005), ("RPMSIGTAG_SHA256", 273), ("RPMTAG_INSTALLTIME", 1008)]
+    ∧ SigTag.RPMSIGTAG_DSA = 267 ∧ SigTag.RPMSIGTAG_RSA = 268 ∧ SigTag.RPMSIGTAG_OPENPGP = 278
+    ∧ SigTag.RPMSIGTAG_PGP = 1002 ∧ SigTag.RPMSIGTAG_GPG = 1005 ∧ SigTag.HEADER_SIGNATURES = 62
+    ∧ IndexTag.RPMTAG_HEADERIMMUTABLE = 63 := by decide
+
 end RpmVerif.C02
